@@ -50,6 +50,15 @@ class Ctx:
         os.makedirs(os.path.join(BUILD, "replay"), exist_ok=True)
         os.makedirs(EVIDENCE, exist_ok=True)
 
+    def clear_replays(self):
+        """a run of the check starts without the replay files of earlier runs of the same property"""
+        import glob
+        for f in glob.glob(os.path.join(BUILD, "replay", f"{self.pid}_*.json")):
+            try:
+                os.remove(f)
+            except OSError:
+                pass
+
     # ------------------------------------------------------------------ helpers
     def quick(self):
         return self.tier == "quick"
